@@ -32,9 +32,9 @@ Caps == [cc : BOOLEAN, te : BOOLEAN, dev : BOOLEAN]
 \* "legacyOwn" (router L: the provider keeps its defaults, the legacy server is constructed with its own moved table) |
 \* "legacyNoDevice" (router L: the legacy server's own table has no device authorization endpoint)
 ConfigCases == {[kind |-> "config", flags |-> f, caps |-> c, issuer |-> i, endpoints |-> e, router |-> r] :
-                   f \in FlagSets, c \in Caps, i \in {"host", "path", "dynamicHost"}, e \in {"default", "custom"}, r \in {"P", "L"}}
+                   f \in FlagSets, c \in Caps, i \in {"host", "path", "dynamicHost", "forwarded"}, e \in {"default", "custom"}, r \in {"P", "L"}}
                \cup {[kind |-> "config", flags |-> f, caps |-> c, issuer |-> i, endpoints |-> e, router |-> "L"] :
-                   f \in Near(AllOn) \cup Near(AllOff), c \in Caps, i \in {"host", "path", "dynamicHost"}, e \in {"legacyOwn", "legacyNoDevice"}}
+                   f \in Near(AllOn) \cup Near(AllOff), c \in Caps, i \in {"host", "path", "dynamicHost", "forwarded"}, e \in {"legacyOwn", "legacyNoDevice"}}
 \* issuer strings: scheme x host x decoration, plus two degenerate strings; built by either constructor
 IssuerCases == {[kind |-> "issuer", scheme |-> sc, host |-> h, deco |-> d, insecure |-> ins, via |-> v] :
                    sc \in {"https", "http", "ftp"}, h \in {"host", "localhost", "nohost"},
